@@ -1044,3 +1044,9 @@ v("C13", "fillempty-descent-unguarded", "fire", F,
 v("C13", "silent-fillempty-guard-truthiness", "silent", F,
   "            while len(f.payloads) > 0 and isinstance(f.payloads[0], Fiber):",
   "            while f.payloads and isinstance(f.payloads[0], Fiber):", None)
+
+
+# D17 (fix: absolute-style merge active range)
+v("C14", "merge-absolute-range-from-upper", "fire", F,
+  "            active_range = (range_start, range_end)\n        elif style == \"linear\":",
+  "            active_range = self.getActive()\n        elif style == \"linear\":", "C14.R5")
